@@ -74,6 +74,8 @@ QJsonObject to_json(const FPlan &p)
     o["foreign"] = f;
     if (!p.sibling.empty())
         o["sibling"] = QString::fromStdString(p.sibling);
+    if (p.obstacle)
+        o["obstacle"] = p.obstacle;
     o["start_ms_of_day"] = p.start_ms_of_day;
     QJsonArray ops;
     for (auto &op : p.ops)
@@ -106,6 +108,7 @@ bool from_json(const QJsonObject &o, FPlan &p)
     for (auto v : o["foreign"].toArray())
         p.foreign.push_back(v.toInt());
     p.sibling = o["sibling"].toString().toStdString();
+    p.obstacle = o["obstacle"].toInt();
     p.start_ms_of_day = o["start_ms_of_day"].toInt(12 * 3600 * 1000);
     for (auto v : o["ops"].toArray())
         p.ops.push_back(op_from(v.toObject()));
@@ -284,6 +287,8 @@ FPlan generate(const std::string &prop, const std::string &tier, uint64_t seed)
         p.gran_ms = r.chance(1, 3) ? 1000 : 1;
     }
 
+    if ((prop == "C05" || prop == "C10") && r.chance(1, 8))
+        p.obstacle = (int)r.range(1, 3);
     for (int i = 0; i < nops; i++) {
         int c = (int)r.below(100);
         if (c < 62) {
